@@ -188,7 +188,7 @@ func b2s(b bool) string {
 
 func runC02(c *core.Ctx, ck *Check) {
 	evalWitnesses(c, ck)
-	pools := c.Scale(3, 40)
+	pools := c.Scale(8, 300)
 	type job struct {
 		e *eco.Eco
 		k int
